@@ -1,7 +1,7 @@
 (* C01: every operation refines the pair-list reference; histories; consequences. *)
 From Boltons Require Import Lib.Prelude Spec.C01_Spec Model.C01_Model Check.C01_Check
   Proofs.C01_Base Proofs.C01_Prim Proofs.C01_Refine Proofs.C01_Mut1 Proofs.C01_Mut2
-  Proofs.C01_Pop Proofs.C01_Reads1 Proofs.C01_Reads2.
+  Proofs.C01_Pop Proofs.C01_Reads1 Proofs.C01_Reads2 Proofs.C01_Bad.
 
 Theorem step_refines : forall op_, refines_op op_.
 Proof.
@@ -43,6 +43,12 @@ Proof.
   - apply eqpairs_refines.
   - apply eqmap_refines.
   - apply eqjunk_refines.
+  - apply ormap_refines.
+  - apply rormap_refines.
+  - apply updatebad_refines.
+  - apply updateextendbad_refines.
+  - apply addlistbad_refines.
+  - apply badkey_refines.
 Qed.
 
 (* one step of one object *)
@@ -114,7 +120,7 @@ Definition is_read (o : op) : bool :=
   match o with
   | Items _ | Keys _ | Values _ | Len | Iter | Reversed | Get _ _ | GetList _ _ | GetItem _
   | Contains _ | ToDict _ | Counts | Inverted | Sorted _ _ | SortedValues _ _ | Repr
-  | EqOther _ | EqSelf _ | EqPairs _ _ | EqMap _ _ | EqJunk _ => true
+  | EqOther _ | EqSelf _ | EqPairs _ _ | EqMap _ _ | EqJunk _ | OrMap _ | ROrMap _ => true
   | _ => false
   end.
 
